@@ -474,18 +474,25 @@ Proof. intros E. apply app_inv_head in E. now injection E. Qed.
 
 (** a subscriber of the namespace-wide key is offered every message of the array, a subscriber
     of a specific key the messages whose param is that key's, in list order *)
+Lemma array_events_cons ns kind p m items :
+  array_events ns kind ((p, m) :: items) =
+  ((if is_empty p then [] else [(key_prefix ns kind ++ us :: p, m)]) ++ [(key_prefix ns kind, m)])
+  ++ array_events ns kind items.
+Proof. reflexivity. Qed.
+
 Lemma array_group_of ns kind items param' :
   lookup (array_groups ns kind items) (sub_key ns kind param') =
   map snd (filter (fun it => is_empty param' || bytes_eqb (fst it) param') items).
 Proof.
   unfold array_groups. rewrite lookup_fold_register. cbn [lookup app].
-  unfold array_events. induction items as [|[p m] items IH]; [reflexivity|].
-  cbn [flat_map fst snd]. rewrite filter_app, map_app, IH. clear IH. cbn [filter fst snd].
+  induction items as [|[p m] items IH]; [reflexivity|].
+  rewrite array_events_cons, !filter_app, !map_app. unfold ev, nid, msg, key in *. rewrite IH. clear IH.
+  cbn [filter fst snd].
   unfold sub_key. destruct param' as [|c' p']; cbn [is_empty orb].
   - (* namespace-wide key *)
-    destruct p as [|c p]; cbn [is_empty filter app fst]; rewrite ?keyb_longer, keyb_refl; reflexivity.
-  - destruct p as [|c p]; cbn [is_empty filter app fst].
-    + rewrite keyb_sym, keyb_longer. cbn [map app]. reflexivity.
+    destruct p as [|c p]; cbn [is_empty filter app fst map snd]; rewrite ?keyb_longer, keyb_refl; reflexivity.
+  - destruct p as [|c p]; cbn [is_empty filter app fst map snd].
+    + rewrite keyb_sym, keyb_longer. cbn [bytes_eqb list_eqb]. reflexivity.
     + rewrite (keyb_sym (key_prefix ns kind)), keyb_longer.
       destruct (bytes_eqb (c :: p) (c' :: p')) eqn:E.
       * apply bytes_eqb_eq in E. rewrite E, keyb_refl. reflexivity.
